@@ -65,6 +65,13 @@ def gen_dynamics(rng):
         exo = [rng.choice([1.0, 2.0, -3.0])] + [float(rng.randint(-5, 5)) for _ in range(6)]
         r0 = rows[0]
         rows[0] = (r0[0], dict(r0[1], U=1.0), r0[2] - exo[0])   # same fixed point when U frozen at U[0]
+    trend = None
+    if rng.random() < 0.15:
+        # the dynamics depend on the time axis (a drift): such a system has no steady state
+        trend = rng.choice([0.05, -0.2, 0.5])
+        r0 = rows[0]
+        rows[0] = (r0[0], dict(r0[1], t=trend), r0[2])
+        kind_tags.append('time_trend')
     deco = rng.random() < 0.6
     # a within-period simultaneous loop driven by the first state (solved with a tight per-period tolerance), and a
     # derived variable that is a small difference of a converging state and a constant
@@ -72,7 +79,7 @@ def gen_dynamics(rng):
     tgt0 = None
     r0 = rows[0]
     lam0 = list(r0[1].values())[0] if len(r0[1]) == 1 else None
-    if lam0 is not None and abs(lam0) < 1 and kind_tags[0] in ('stable', 'slow', 'negative'):
+    if lam0 is not None and abs(lam0) < 1 and kind_tags[0] in ('stable', 'slow', 'negative') and trend is None:
         c0 = r0[2] + (exo[0] if exo is not None else 0.0)
         tgt0 = c0 / (1 - lam0)
     near = (0.99 * tgt0) if (tgt0 is not None and abs(tgt0) > 1.0 and rng.random() < 0.6) else None
@@ -120,7 +127,8 @@ class C15(object):
     assumptions = ['slack %g: a mode of modulus <= 2 may grow one step past the acceptance test' % SLACK,
                    'inner solves are exact (recursive blocks), so inner tolerance cannot blur the verdict']
     required_counters = ('accepted.judged', 'accepted.negative_valued', 'rejected.judged', 'untouched.judged',
-                         'via_solve_equation', 'inner_loop_tight_tolerance.cases', 'near_cancelling_derived.cases')
+                         'via_solve_equation', 'inner_loop_tight_tolerance.cases', 'near_cancelling_derived.cases',
+                         'coarse_per_period_tolerance.cases')
 
     def n_cases(self, tier):
         return 300 if tier == 'quick' else 20000
@@ -135,6 +143,7 @@ class C15(object):
             T = min(T, 100)      # tight per-period solves of a loop with gain 0.9 are slow
         loop_default = bool(d.get('loop')) and rng.random() < 0.3
         return {'kind': 'search', 'dyn': d, 'text': render(d), 'T': T, 'loop_default_tolerance': loop_default,
+                'coarse_step_tolerance': (not d.get('loop')) and rng.random() < 0.3,
                 'tol': 10 ** rng.uniform(-8, -2), 'reduction': rng.random() < 0.5, 'via_solve': via_solve}
 
     def run_case(self, case):
@@ -155,6 +164,10 @@ class C15(object):
             rec.count('inner_loop_tight_tolerance.cases')
         elif default_step_tol:
             rec.count('inner_loop_default_tolerance.cases')
+        elif case.get('coarse_step_tolerance'):
+            # a coarse per-period tolerance (irrelevant for these recursive blocks) must not loosen the acceptance test
+            s.ParameterErrorTolerance = 1e-2
+            rec.count('coarse_per_period_tolerance.cases')
         if case['dyn'].get('near_cancel') is not None:
             rec.count('near_cancelling_derived.cases')
         exo_names = [n for n, _ in s.Parser.Exogenous]
